@@ -125,6 +125,8 @@ var Programs = map[string]string{
 	"touch_and_revert": "$fresh BALANCE POP 0 0 0 0 CALLVALUE $fresh GAS CALL POP 0 0 REVERT",
 	// self-destructs to the address in calldata[0:32] (zero calldata: to itself)
 	"suicide": "CALLDATASIZE @to JUMPI ADDRESS SELFDESTRUCT :to 0 CALLDATALOAD SELFDESTRUCT",
+	// stores the block context (NUMBER, TIMESTAMP, COINBASE) in slots 0..2 and returns NUMBER
+	"store_context": "NUMBER 0 SSTORE TIMESTAMP 1 SSTORE COINBASE 2 SSTORE NUMBER 0 MSTORE 32 0 RETURN",
 	// self-destructs to the caller, whatever the calldata
 	"suicide_caller": "CALLER SELFDESTRUCT",
 	// infinite loop (out of gas)
